@@ -174,8 +174,29 @@ def run_assemble(h, run, compress):
     return log
 
 
+def obligations_eager(ctx, h):
+    """every pass runs to completion before it returns: a generator pass would run interleaved with the passes after it, and
+    they share (and mutate) the label table - the pipeline contract above and every per-pass step VC assume sequencing"""
+    import ast
+    tree = h.mod.tree
+    for node in tree.body:
+        if isinstance(node, ast.FunctionDef) and node.name in PASSES + ['read_lines', 'lex_tokens', 'parse_item']:
+            own = [n for n in ast.walk(node) if isinstance(n, (ast.Yield, ast.YieldFrom))]
+            # yields of nested function definitions do not make this function a generator
+            nested = set()
+            for sub in ast.walk(node):
+                if isinstance(sub, (ast.FunctionDef, ast.Lambda)) and sub is not node:
+                    nested.update(id(n) for n in ast.walk(sub) if isinstance(n, (ast.Yield, ast.YieldFrom)))
+            lazy = any(id(n) not in nested for n in own)
+            ctx.add(Obligation('asm.%s/runs-to-completion-before-it-returns' % node.name, [], z3.BoolVal(not lazy), 'finite', func='asm.' + node.name,
+                               kind='frame', cover=False,
+                               meta={'replay': ('pipeline', {}), 'key': 'pipeline:lazy:%s' % node.name,
+                                     'what': '%s is a generator: its body runs interleaved with the later passes, which read and shrink the same label table' % node.name}))
+
+
 def obligations_pipeline(ctx, h):
     ctx.under_contract('assemble')
+    obligations_eager(ctx, h)
     for compress in (False, True):
         tag = 'compress' if compress else 'no-compress'
         try:
